@@ -4,6 +4,7 @@ import OrsoVerif.Lemmas.SanitiseVisible
 import OrsoVerif.Lemmas.SanitiseDeep
 import OrsoVerif.Lemmas.SanitiseUrlPlain
 import OrsoVerif.Model.SanitiseEvent
+import OrsoVerif.Generated.SanitiseFns
 /-!
 # C20 — Log sanitiser never emits values of sensitive keys
 
@@ -100,6 +101,78 @@ example :
       = [(['a'], "{'x_key': '<redacted:9>', 'n': 'v'}".toList)] := by
   decide
 
+/-! ## the statements of the source, translated on every run, equal the model
+
+`harness/extractors/c20_fns.py` translates the loop body of `clean_record`, `format`, the part of
+`sanitize_record` after the isolation loop and the two branches of `write_event` statement by
+statement (`Gen.SanitiseFns.*`).  The theorems of this section prove the translations equal to the
+hand-written model, so the *order* of the tests (is the key sensitive? — is the value an object?)
+and of the stages (sanitise — URL rule; clean — store — merge) is an extracted item every theorem
+below depends on: swapping two branches or two stages in the source makes one of these proofs fail. -/
+
+/-- **`clean_record`, one member.**  The if / elif / else chain of the loop body as it stands in the
+source — key test first, then `isinstance(value, dict)`, then `str(value)` — and its three f-strings
+compute exactly the member the model emits: the placeholder of the digest for a sensitive key
+*whatever the value is*, the cleaned inner object for an object under another key, the
+quote-coloured `str(value)` otherwise. -/
+theorem generated_clean_member_eq_model (h : Json → Str) (c : Colors) (k : Str) (v : Json) :
+    Gen.SanitiseFns.clean_member sensitive Json.isObj h (cleanRecText h c) (renderVal c) (colorOf c) k v
+      = (c.key ++ k ++ c.off,
+          c.value ++ (if sensitive k then placeholder c (h v) else cleanVal h c v) ++ c.off) := by
+  unfold Gen.SanitiseFns.clean_member
+  by_cases hs : sensitive k = true
+  · simp [hs, colorOf, placeholder]
+  · cases v <;> simp [hs, Json.isObj, cleanRecText, renderVal, cleanVal, colorOf]
+
+/-- **`clean_record`, the loop**: the cleaned record is the generated member function mapped over
+the members (Python's `clean_record[clean_key] = …` on distinct keys appends). -/
+theorem generated_clean_record_eq_model (h : Json → Str) (c : Colors) (d : List (Str × Json)) :
+    cleanObj h c d
+      = d.map fun kv => Gen.SanitiseFns.clean_member sensitive Json.isObj h (cleanRecText h c) (renderVal c) (colorOf c) kv.1 kv.2 := by
+  induction d with
+  | nil => rfl
+  | cons kv rest ih =>
+    obtain ⟨k, v⟩ := kv
+    rw [List.map_cons, generated_clean_member_eq_model, ← ih]
+    simp only [cleanObj]
+
+/-- **`format`**: sanitise first, then the URL rule over the whole sanitised record — the order
+found in the source. -/
+theorem generated_format_eq_model (h : Json → Str) (can : Bool) (parse : Str → Option (List (Str × Json)))
+    (record : Str) :
+    Gen.SanitiseFns.format (sanitize h can parse) redactUrl record = format h can parse record := by
+  simp only [Gen.SanitiseFns.format, format, Gen.Sanitise.urlGuard]
+  split <;> simp_all
+
+/-- **`sanitize_record` after the isolation loop**, JSON branch: the cleaned message (colours on) is
+appended to the header fields after one space, joined and colourised. -/
+theorem generated_sanitize_tail_json_eq_model (h : Json → Str) (can : Bool) (record : Str) (parts : List Str)
+    (d : List (Str × Json)) :
+    Gen.SanitiseFns.sanitize_tail (fun o => cleanObj h (colorsFor true) (o.getD [])) dumps (colorCode can)
+        (colorizer can) strip pairColour record parts (some d)
+      = colorizer can (joinWith '|' (parts ++ [' ' :: dumps (cleanObj h (colorsFor true) d)])) := by
+  simp [Gen.SanitiseFns.sanitize_tail]
+
+/-- … and the plain-text branch: colour exchange on the whole record, the three quote substitutions
+on the last field in the order of the source, `strip()`, the ` *` marker. -/
+theorem generated_sanitize_tail_plain_eq_model (h : Json → Str) (can : Bool) (record : Str) (parts : List Str) :
+    Gen.SanitiseFns.sanitize_tail (fun o => cleanObj h (colorsFor true) (o.getD [])) dumps (colorCode can)
+        (colorizer can) strip pairColour record parts none
+      = renderPlain can record := by
+  simp [Gen.SanitiseFns.sanitize_tail, renderPlain]
+
+/-- The isolation loop starts at the first field (`range(len(parts))`): a layout without header
+fields (`%(message)s`) is sanitised too. -/
+theorem isolation_starts_at_first_field : Gen.Sanitise.isolateStart = 0 := by decide
+
+/-- The guard of the isolation loop, as extracted: it strips JSON white space, does not strip `{`,
+and looks for `{` — every text `json.loads` can turn into an object passes it. -/
+theorem isolation_guard_admits_objects : GuardOK := by
+  refine ⟨?_, by decide, by decide⟩
+  intro c hc
+  simp only [Bool.or_eq_true, beq_iff_eq] at hc
+  rcases hc with ((hc | hc) | hc) | hc <;> subst hc <;> decide
+
 /-! ## no value under a sensitive key is emitted -/
 
 /-- **No value under a sensitive key is emitted** (non-interference; every depth of nested
@@ -111,6 +184,15 @@ its digest can reach it.  (Taking `h` constant: the output does not depend on th
 theorem clean_noninterference (h : Json → Str) (c : Colors) (r₁ r₂ : List (Str × Json))
     (he : eraseObj h r₁ = eraseObj h r₂) : cleanObj h c r₁ = cleanObj h c r₂ :=
   cleanObj_congr h c r₁ r₂ he
+
+/-- The same, stated on the translation of the source itself: mapping the loop body *as it stands in
+`log_formatter.py`* over two records with the same erasure gives the same members. -/
+theorem clean_record_source_noninterference (h : Json → Str) (c : Colors) (r₁ r₂ : List (Str × Json))
+    (he : eraseObj h r₁ = eraseObj h r₂) :
+    (r₁.map fun kv => Gen.SanitiseFns.clean_member sensitive Json.isObj h (cleanRecText h c) (renderVal c) (colorOf c) kv.1 kv.2)
+      = r₂.map fun kv => Gen.SanitiseFns.clean_member sensitive Json.isObj h (cleanRecText h c) (renderVal c) (colorOf c) kv.1 kv.2 := by
+  rw [← generated_clean_record_eq_model, ← generated_clean_record_eq_model]
+  exact clean_noninterference h c r₁ r₂ he
 
 /-- **The formatted record as a whole** (`LogFormatter.format`): two records with the same header
 fields whose messages are JSON objects with the same erasure — the messages may contain the field
@@ -129,7 +211,8 @@ theorem format_noninterference (h : Json → Str) (can : Bool) (parse : Str → 
       (∀ fs, fs ≠ [] → fs <:+ splitOn '|' header → parse (joinWith '|' (fs ++ splitOn '|' j)) = none) →
       sanitize h can parse (header ++ '|' :: j) = renderJson h can (splitOn '|' header) d := by
     intro j d hj ho hno
-    simp only [sanitize, splitOn_append, isolate_message parse _ j d hj ho hno]
+    simp only [sanitize_from_first isolation_starts_at_first_field, splitOn_append,
+      isolate_message isolation_guard_admits_objects parse _ j d hj ho hno]
   simp only [format, key j₁ d₁ hj₁ ho₁ hno₁, key j₂ d₂ hj₂ ho₂ hno₂, renderJson, cleanObj_congr h _ d₁ d₂ he]
 
 /-! ## the two readings of "at any depth of nested objects"
@@ -162,6 +245,19 @@ theorem clean_noninterference_deep_reading (h : Json → Str) (c : Colors) (r₁
     (h₁ : readingsAgreeObj r₁ = true) (h₂ : readingsAgreeObj r₂ = true)
     (he : eraseDeepObj h r₁ = eraseDeepObj h r₂) : cleanObj h c r₁ = cleanObj h c r₂ :=
   cleanObj_congr h c r₁ r₂ (by rw [eraseObj_eq_deep h r₁ h₁, eraseObj_eq_deep h r₂ h₂, he])
+
+/-- **Exactly what is descended into.**  An array under a non-sensitive key is a *value*: it is
+rendered whole with `str()` (quote-coloured), no digest is computed for anything inside it — the
+member's text is the same for every digest function — whereas an object under a non-sensitive key
+is replaced by the rendering of its cleaned members (`other_keys_descend`) and anything under a
+sensitive key by the placeholder (`sensitive_member_placeholder`).  Together with
+`clean_noninterference` this characterises the descent: through objects under non-sensitive keys,
+nowhere else. -/
+theorem arrays_are_values (h₁ h₂ : Json → Str) (c : Colors) (k : Str) (xs : List Json) (hk : sensitive k = false) :
+    cleanObj h₁ c [(k, .arr xs)] = cleanObj h₂ c [(k, .arr xs)]
+    ∧ cleanObj h₁ c [(k, .arr xs)]
+        = [(c.key ++ k ++ c.off, c.value ++ quoteColour c ('[' :: (pyReprItems xs ++ [']'])) ++ c.off)] := by
+  constructor <;> simp [cleanObj, cleanVal, hk, pyStr, pyRepr]
 
 /-- Counterexample (proved): outside that class the implementation does **not** meet the deep
 reading — `{"a": [{"pwd": "x"}]}` and `{"a": [{"pwd": "y"}]}` have the same deep erasure and are
@@ -243,7 +339,7 @@ theorem visible_token_in_record (h : Json → Str) (can : Bool) (parse : Str →
     (hv : VisibleAt (c0 :: t') d)
     (hurl : isInfix Gen.Sanitise.urlGuard (sanitize h can parse (header ++ '|' :: j)) = false) :
     c0 :: t' <:+: format h can parse (header ++ '|' :: j) := by
-  have hs := sanitize_json h can parse header j d hj ho hno
+  have hs := sanitize_json isolation_guard_admits_objects isolation_starts_at_first_field h can parse header j d hj ho hno
   have hf : format h can parse (header ++ '|' :: j) = sanitize h can parse (header ++ '|' :: j) := by
     unfold format
     simp only [hurl, Bool.false_eq_true, if_false]
@@ -252,6 +348,22 @@ theorem visible_token_in_record (h : Json → Str) (can : Bool) (parse : Str →
   apply colorizer_token can c0 t' _ hp hh
   refine List.IsInfix.trans ?_ (joinWith_infix '|' _ _ (List.mem_append_right _ (List.mem_singleton.mpr rfl)))
   exact List.infix_cons_iff.mpr (Or.inr (visible_token_survives h (colorsFor true) _ d hp hv))
+
+/-- Counterexample (proved): without `tokenHeadOK` the statement of `visible_token_in_record` is
+**false** of the faithful model.  The visible value `"\x01OFFm123"` of `{"n": …}` contains the plain
+token `m123`; `json.dumps` writes the control character as `\u0001`, the colouriser turns that
+literal back into `\x01` and then removes `\x01OFFm` — the `m` of the token goes with it.  (Checked
+on the real code by the harness's generators only in so far as tokens start with a digit; a value
+under a non-sensitive key that spells a colour code is mangled, never a secret shown.) -/
+theorem visible_token_needs_head_condition :
+    let j : Str := ['{', '"', 'n', '"', ':', ' ', '"', '\\', 'u', '0', '0', '0', '1', 'O', 'F', 'F', 'm', '1', '2', '3', '"', '}']
+    let d : List (Str × Json) := [(['n'], .str [Char.ofNat 1, 'O', 'F', 'F', 'm', '1', '2', '3'])]
+    let parse : Str → Option (List (Str × Json)) := fun t => if t = j then some d else none
+    VisibleAt ['m', '1', '2', '3'] d ∧ tokenHeadOK 'm' = false
+      ∧ ¬ (['m', '1', '2', '3'] <:+: format (fun _ => []) false parse (['h', '|'] ++ j)) := by
+  refine ⟨?_, by decide, by decide +kernel⟩
+  exact .leaf _ ['n'] _ (List.mem_singleton.mpr rfl) (by decide) (by intro kvs h; cases h)
+    ⟨[Char.ofNat 1, 'O', 'F', 'F'], [], rfl⟩
 
 /-- Colour codes are only ever *inserted* into a visible value: the characters of `str(value)`
 all appear, in order, in the coloured text. -/
@@ -285,7 +397,7 @@ theorem split_recovers_json (parse : Str → Option (List (Str × Json))) (heade
       parse (joinWith '|' (fs ++ splitOn '|' json)) = none) :
     isolate parse [] (splitOn '|' (header ++ '|' :: json)) = some (splitOn '|' header, d) := by
   rw [splitOn_append]
-  exact isolate_message parse _ json d hj ho hno
+  exact isolate_message isolation_guard_admits_objects parse _ json d hj ho hno
 
 /-- The side condition in syntactic form.  A parser that only accepts texts whose first
 non-blank character is `{` (true of `json.loads` returning a dict; the harness checks it on every
@@ -300,11 +412,39 @@ theorem split_recovers_json_syntactic (parse : Str → Option (List (Str × Json
   split_recovers_json parse header json d hj (hparse _ _ hj)
     (no_longer_candidate parse hparse _ _ (splitOn_ne_nil _ _) hh)
 
+/-- **The isolation theorem against the guard as extracted — no assumption on the parser.**  If no
+header field passes the guard of the loop (`lstrip(<guardStrip>).startswith("{")`, both read from the
+source; a leading BOM is stripped like white space) and the message text passes it and parses as an
+object, the loop returns the header fields and the parse of the whole message: the header fields are
+skipped without the parser being asked.  The harness checks the remaining premise on the running
+code: every text `json.loads` turns into a dict passes the guard. -/
+theorem split_recovers_json_guard (parse : Str → Option (List (Str × Json))) (header json : Str)
+    (d : List (Str × Json)) (hj : parse json = some d) (ho : opensObject json = true)
+    (hh : ∀ f ∈ splitOn '|' header, opensObject f = false) :
+    isolate parse [] (splitOn '|' (header ++ '|' :: json)) = some (splitOn '|' header, d) := by
+  rw [splitOn_append, isolate_skip_guard parse (splitOn '|' json) (splitOn '|' header) [] hh]
+  obtain ⟨p, ps, hs, hop⟩ := opensObject_first_field (by decide) (by decide) json ho
+  have hjoin : joinWith '|' (p :: ps) = json := by rw [← hs]; exact join_splitOn '|' json
+  rw [hs]
+  simp only [isolate, hop, if_true, hjoin, hj, List.nil_append]
+
+/-- **What the parser rejects is plain text.**  The guarantee for JSON messages is conditional on the
+parser: a record none of whose candidates parses (a leading BOM after a header, single quotes, a
+trailing comma, an integer of 4301 digits — whatever `json.loads` refuses) takes the plain-text
+branch whole, and only the URL rule applies to it.  The parser's acceptance set is exactly the
+domain of the first sentence of the property. -/
+theorem rejected_message_is_plain_text (h : Json → Str) (can : Bool) (parse : Str → Option (List (Str × Json)))
+    (hp : ∀ t, parse t = none) (record : Str) :
+    format h can parse record
+      = (if isInfix Gen.Sanitise.urlGuard (renderPlain can record) then redactUrl (renderPlain can record)
+         else renderPlain can record) := by
+  simp only [format, sanitize_from_first isolation_starts_at_first_field, isolate_none parse hp]
+
 /-- The same for a layout without header fields (`%(message)s`). -/
 theorem split_recovers_json_bare (parse : Str → Option (List (Str × Json))) (json : Str)
     (d : List (Str × Json)) (hj : parse json = some d) (ho : firstNonSpace json = some '{') :
     isolate parse [] (splitOn '|' json) = some ([], d) := by
-  have := isolate_message parse [] json d hj ho (fun fs hne hs => absurd (List.suffix_nil.mp hs) hne)
+  have := isolate_message isolation_guard_admits_objects parse [] json d hj ho (fun fs hne hs => absurd (List.suffix_nil.mp hs) hne)
   simpa using this
 
 /-- Splitting on the separator and joining again is the identity, and the fields of
@@ -362,9 +502,26 @@ theorem plain_text_url_userinfo_removed (h : Json → Str) (can : Bool)
       simp [urlCore, Gen.Sanitise.urlGuard, Gen.Sanitise.urlOpen, List.append_assoc]
     rw [this]
     exact isInfix_self _ _ _ (by decide)
-  simp only [format, sanitize, hp₁, hp₂, o₁, o₂, guard, if_true]
+  simp only [format, sanitize_from_first isolation_starts_at_first_field, hp₁, hp₂, o₁, o₂, guard, if_true]
   rw [← e u₁ a b, ← e u₂ a b]
   exact url_userinfo_removed a b u₁ u₂ (cleanRun_of_urlSafe u₁ hu₁) (cleanRun_of_urlSafe u₂ hu₂)
+
+/-- Counterexample (proved): for a user-info that contains a quote character the *strict*
+non-interference of `plain_text_url_userinfo_removed` is **false** of the faithful model (colour
+on): the quote inside `://'@` pairs with the first quote of `'q'`, so the run between them is what
+gets coloured, while with the user-info `x` it is `q`.  The two outputs differ in where a colour code
+stands — one bit about the user-info (it contains a quote), not the credential, which is removed in
+both.  This is why `UrlSafe` excludes the apostrophe; such user-infos are carried by the
+correspondence and the token oracle. -/
+theorem quote_in_userinfo_breaks_strict_noninterference :
+    let pre : Str := ['a', ' ']
+    let post : Str := ['h', ' ', '\'', 'q', '\'']
+    format (fun _ => []) true (fun _ => none) (pre ++ urlTail ['\''] post)
+      ≠ format (fun _ => []) true (fun _ => none) (pre ++ urlTail ['x'] post)
+    ∧ cleanRun Gen.Sanitise.urlClose ['\''] = true ∧ ¬ UrlSafe ['\''] := by
+  refine ⟨by decide +kernel, by decide, ?_⟩
+  intro h
+  exact absurd (h '\'' (List.mem_singleton.mpr rfl)) (by decide)
 
 /-! ## the structured logger -/
 
@@ -375,6 +532,39 @@ every content of the structured log (severity, labels, source location, span id)
 theorem write_event_noninterference (h : Json → Str) (base : List (Str × GVal)) (r₁ r₂ : List (Str × Json))
     (he : eraseObj h r₁ = eraseObj h r₂) : writeEvent h base r₁ = writeEvent h base r₂ := by
   simp only [writeEvent, eventLog, cleanObj_congr h _ r₁ r₂ he]
+
+/-- **`write_event`, dict message**: clean with colours off, store `str(cleaned) + " *"` under
+`"message"`, merge the cleaned members, print — in the order of the source. -/
+theorem generated_write_event_dict_eq_model (h : Json → Str) (base : List (Str × GVal)) (msg : List (Str × Json)) :
+    Gen.SanitiseFns.write_event_dict (cleanObj h (colorsFor false)) orjsonDumps base msg = writeEvent h base msg := by
+  simp only [Gen.SanitiseFns.write_event_dict, writeEvent, eventLog]
+
+/-- **`write_event`, text message**: the URL rule first, then the message is stored and printed. -/
+theorem generated_write_event_text_eq_model (base : List (Str × GVal)) (msg : Str) :
+    Gen.SanitiseFns.write_event_text (redactUrlWith Gen.Sanitise.gUrlReplacement) orjsonDumps base msg
+      = writeEventText base msg := by
+  simp only [Gen.SanitiseFns.write_event_text, writeEventText, eventTextLog, Gen.Sanitise.gUrlGuard, true_and]
+  split <;> simp_all
+
+/-- The structured logger uses the URL expression of `format()` (only the replacement differs). -/
+theorem write_event_uses_the_url_rule_of_format :
+    Gen.Sanitise.gUrlOpen = Gen.Sanitise.urlOpen ∧ Gen.Sanitise.gUrlClose = Gen.Sanitise.urlClose
+      ∧ Gen.Sanitise.gUrlGuard = Gen.Sanitise.urlOpen := by decide
+
+/-- **URL credentials in a text message of the structured logger are removed**: the line
+`write_event` prints for a text message does not depend on the user-info of a URL in it, for
+arbitrary surrounding text and every content of the structured log. -/
+theorem write_event_text_url_userinfo_removed (base : List (Str × GVal)) (pre post u₁ u₂ : Str)
+    (h₁ : cleanRun Gen.Sanitise.urlClose u₁ = true) (h₂ : cleanRun Gen.Sanitise.urlClose u₂ = true) :
+    writeEventText base (pre ++ urlTail u₁ post) = writeEventText base (pre ++ urlTail u₂ post) := by
+  have guard : ∀ u, isInfix Gen.Sanitise.gUrlGuard (pre ++ urlTail u post) = true := by
+    intro u
+    have : pre ++ urlTail u post = pre ++ Gen.Sanitise.gUrlGuard ++ (u ++ Gen.Sanitise.urlClose :: post) := by
+      simp [urlTail, Gen.Sanitise.gUrlGuard, Gen.Sanitise.urlOpen, List.append_assoc]
+    rw [this]
+    exact isInfix_self _ _ _ (by decide)
+  simp only [writeEventText, eventTextLog, guard, if_true, redactUrlWith]
+  rw [redactUrlWF_congr _ u₁ u₂ post h₁ h₂ pre.length pre (Nat.le_refl _) _ _ (Nat.le_succ _) (Nat.le_succ _)]
 
 /-! ## non-vacuity -/
 
@@ -387,6 +577,13 @@ example :
       = "{\"s\":\"D\",\"message\":\"{'pwd': '<redacted:9>', 'n': 'v'} *\",\"pwd\":\"<redacted:9>\",\"n\":\"v\"}".toList := by
   refine ⟨by decide, by decide, by decide, by rfl, by decide⟩
 
+
+/-- The guard hypotheses of `split_recovers_json_guard` on a header shaped like `create_logger.py`'s
+and on a message that starts with a BOM and white space; a field that starts with `{` does pass. -/
+example :
+    (∀ f ∈ splitOn '|' ['n', ' ', '|', ' ', 'E', ' '], opensObject f = false)
+    ∧ opensObject [Char.ofNat 0xfeff, ' ', '{', '"', 'a', '"', ':', '1', '}'] = true
+    ∧ opensObject ['x', '{'] = false := by decide
 
 /-- `VisibleAt` is inhabited two objects down: the token `T1` inside `{"a": {"n": "xT1y"}}`. -/
 example : VisibleAt ['T', '1'] [(['a'], .obj [(['n'], .str ['x', 'T', '1', 'y'])])] :=
